@@ -211,6 +211,51 @@ def run_c20(rep, tier, seed):
         else:
             rep.count("fault_not_reached")
         rep.cov["traces_validated_against_impl"] += 1
+        # correspondence with the fault-aware Lean model (Store/FaultModel.lean) for faults on the put / delete path
+        if not probs and len(a2) == ln:
+            fl = next((i for i, x in enumerate(a2) if any(c.startswith("!") for c in calls_of(x))), None)
+            kind = None
+            if fl is not None and tags[fl][0] == "op" and h.ops[tags[fl][1]][0] in ("put", "del"):
+                op = h.ops[tags[fl][1]]
+                cs = calls_of(a2[fl])
+                bad = next(c for c in cs if c.startswith("!"))
+                if bad.startswith("!write"):
+                    # what reached the old file (before the failure, or when the abandoned writer was dropped): the whole
+                    # entry (it fitted the 8 KiB buffer) or only some leading bytes of it
+                    reached = sum(int(c.split(":")[2]) for c in cs if c.startswith(("a:", "a?:")))
+                    entry_len = 17 + len(op[1]) + (8 + len(op[2]) if op[0] == "put" else 0)
+                    kind = "small" if reached == entry_len else f"large:{reached}"
+                elif bad.startswith("!fsync"):
+                    kind = "fsync"
+                elif bad.startswith("!open"):
+                    kind = "create"
+            if fl is None or kind is not None:
+                ml, mp = [], []
+                for i, l in enumerate(lines):
+                    if l.startswith(("fault ", "trace ", "seq")):
+                        ml.append("#")
+                        mp.append(None)
+                        continue
+                    if i == fl:
+                        ml.append("mfault " + kind)
+                        mp.append(None)
+                    if l == "merge":
+                        mm = re.search(r"order=(\S+)", a2[i])
+                        ml.append("merge order=" + (mm.group(1) if mm else "-"))
+                    else:
+                        ml.append(l)
+                    mp.append(i)
+                mans = run_driver(ml)
+                rep.count("model_compared_runs")
+                for j, i in enumerate(mp):
+                    if i is None:
+                        continue
+                    ia = strip_trace(a2[i])
+                    if "retry-" in ia:
+                        ia = "ok"
+                    if ia != mans[j]:
+                        probs.append(("the fault-aware model and the real store disagree after the fault", i, mans[j], ia, None, "correspondence"))
+                        break
         for p in probs:
             if p[4] is not None:
                 if p[4] not in known:
@@ -219,7 +264,7 @@ def run_c20(rep, tier, seed):
             else:
                 nv += 1
                 if nv <= 4:
-                    rep.violation("oracle", dict(what=p[0], script=lines, failing_line=p[1], failing_request=lines[p[1]] if p[1] < len(lines) else None,
+                    rep.violation(p[5] if len(p) > 5 else "oracle", dict(what=p[0], script=lines, failing_line=p[1], failing_request=lines[p[1]] if p[1] < len(lines) else None,
                                                  expected=p[2], observed=p[3], answers=a2))
         if len(a2) < ln:
             break
